@@ -77,6 +77,11 @@ class Trans:
         if self.kind == "groups":        # several constraint components: members allowed per group (often jointly infeasible)
             c = self.contrib(x)
             return numpy.maximum(self.K @ c - self.thr, 0.0)
+        if self.kind == "slots":         # position-dependent: the member in slot j counts with weight K[j] (roles such as female/male)
+            xi = numpy.asarray(x, dtype=int)
+            out = numpy.array(latent[: self.nout], dtype=float)
+            out[0] = out[0] + float(numpy.sum(self.K[: len(xi)] * self.thr[xi]))
+            return out
         if self.kind == "plateau":       # coarse rounding -> many ties
             return numpy.round(latent[: self.nout], 0)
         raise KeyError(self.kind)
@@ -89,13 +94,21 @@ def make_problem(g, enc, nobj, n, k):
     nrow = n + (int(g.integers(1, 6)) if enc == "Subset" and g.random() < 0.5 else 0)     # candidate set may be a proper subset of the rows
     rows = numpy.sort(g.choice(nrow, n, replace=False)).astype("int64")
     ebv = g.normal(size=(nrow, ntrait))
-    dcls = str(g.choice(["plain", "ties", "pairwise", "plateau", "constrained", "constrained", "multi-constraint", "multi-constraint"]))
+    dcls = str(g.choice(["plain", "ties", "pairwise", "plateau", "constrained", "constrained", "multi-constraint", "multi-constraint", "positional", "unattainable"]))
+    if dcls == "positional" and enc != "Subset":
+        dcls = "pairwise"
+    if dcls == "unattainable":
+        dcls = "constrained"; huge = True
+    else:
+        huge = False
     if dcls == "ties":
         ebv = numpy.round(ebv)
     K = None
     if dcls == "pairwise":
         A = g.normal(size=(nrow, nrow)); K = 0.3 * (A @ A.T) / nrow
         obj_trans = Trans("pairwise", nobj, K=K, enc=enc)
+    elif dcls == "positional":
+        obj_trans = Trans("slots", nobj, K=g.choice([1.0, 0.5, 2.0, -1.0], 16), thr=g.normal(size=nrow))
     elif dcls == "plateau":
         obj_trans = Trans("plateau", nobj)
     else:
@@ -104,6 +117,9 @@ def make_problem(g, enc, nobj, n, k):
     if dcls == "constrained":
         thr = float(numpy.quantile(-ebv[:, -1], 0.5)) * (1.0 if enc == "Subset" else 0.3)
         kw = dict(nineqcv=1, ineqcv_wt=numpy.array([1.0]), ineqcv_trans=Trans("cons", 1, thr=thr))
+        if huge:     # a budget nobody can meet: every decision violates by about 1e6, neighbouring decisions differ by units
+            kw = dict(nineqcv=1, ineqcv_wt=numpy.array([1.0]), ineqcv_trans=Trans("cons", 1, thr=thr - 1e6))
+            dcls += "/unattainable threshold (violations ~1e6)"
     if dcls == "multi-constraint":
         ng = int(g.integers(2, 4))
         memb = g.integers(0, ng, nrow)
